@@ -8,6 +8,8 @@ pub struct UtpStream {
     reader: UtpStreamReadHalf,
     writer: UtpStreamWriteHalf,
     remote_addr: SocketAddr,
+    #[cfg(librqbit_utp_verif)]
+    verif_cid: u16,
 }
 
 impl UtpStream {
@@ -20,7 +22,22 @@ impl UtpStream {
             reader,
             writer,
             remote_addr,
+            #[cfg(librqbit_utp_verif)]
+            verif_cid: 0,
         }
+    }
+
+    /// Verification hook: the connection id this stream receives on (identifies the
+    /// connection in hook events).
+    #[cfg(librqbit_utp_verif)]
+    pub fn verif_cid(&self) -> u16 {
+        self.verif_cid
+    }
+
+    #[cfg(librqbit_utp_verif)]
+    pub(crate) fn verif_set_cid(mut self, cid: u16) -> Self {
+        self.verif_cid = cid;
+        self
     }
 
     pub fn remote_addr(&self) -> SocketAddr {
